@@ -35,3 +35,13 @@ Proof.
   rewrite forallb_forall in Hall. now apply Hall.
 Qed.
 
+
+(* the regenerated write-action table: every method a tool can reach has an entry, and it
+   is empty (no etcd Put/Delete/Txn, no write lock, no field write reachable from
+   EtcdStore.<M> or InMemoryStore.<M>) *)
+Definition writes_known_empty (m : store_method) : bool :=
+  existsb (fun e => method_eqb m (fst e) && match snd e with [] => true | _ => false end) mcp_method_writes.
+
+Lemma mcp_reachable_no_writes :
+  forallb (fun e => forallb writes_known_empty (snd e)) mcp_calls = true.
+Proof. vm_compute. reflexivity. Qed.
